@@ -146,7 +146,10 @@ var TypeSyntaxWriter dsl.TypeSyntaxWriter[string] = func(self dsl.TypeSyntaxWrit
 				}
 			}
 
-			typeSyntax = fmt.Sprintf("%s[%s]", typeName, strings.Join(typeArguments, ", "))
+			// none of the parameters may be visible to Python (e.g. T only used in T*[]): the class is then not generic
+			if len(typeArguments) > 0 {
+				typeSyntax = fmt.Sprintf("%s[%s]", typeName, strings.Join(typeArguments, ", "))
+			}
 		}
 
 		if nt, ok := t.(*dsl.NamedType); ok {
